@@ -1499,6 +1499,12 @@ impl Zeroconf {
                     HostnameResolutionEvent::SearchStopped(hostname.to_owned()),
                 );
                 self.hostname_resolvers.remove(&hostname);
+
+                // The search is over: drop its pending retransmission as well, which
+                // may be due in this very iteration if we woke up late.
+                self.retransmissions.retain(|rerun| {
+                    !matches!(&rerun.command, Command::ResolveHostname(h, _, _, _) if h.to_lowercase() == hostname)
+                });
             }
 
             // process commands from the command channel
